@@ -15,7 +15,8 @@
 (* Time is an integer (nanoseconds in traces, an abstract unit in model checking). *)
 (* 9/8 x is computed as x + x \div 8 and the EWMA updates as s + (a - s) \div 8,   *)
 (* which equal the truncating int64 expressions of the Go code for x, s, a >= 0    *)
-(* and stay below 2^31.                                                            *)
+(* and stay below 2^31; sums and products of times saturate at Big (SatAdd,        *)
+(* SatMul), far above anything a trace contains.                                   *)
 (*                                                                                 *)
 (* Documented deviations from RFC 9002 that are part of this specification         *)
 (* (comments in loss.go):                                                          *)
@@ -50,22 +51,34 @@
 (*  "dkreset" discardKeys does not reset the PTO backoff (A.11: pto_count = 0);    *)
 (*  "dgcnt"   a PTO executed by datagramReceived does not count as a PTO expiry    *)
 (*            (A.6 calls OnLossDetectionTimeout, which increments pto_count).      *)
-EXTENDS Integers, Sequences, FiniteSets
+EXTENDS Integers, Sequences, FiniteSets, TLC
 
 CONSTANTS Gran,       \* timer granularity (kGranularity)
           InitSRTT,   \* smoothed_rtt before the first sample (kInitialRtt)
           InitVar,    \* rttvar before the first sample
           DefMAD,     \* max_ack_delay assumed before transport parameters arrive
-          MinPkt      \* below this allowance a server counts as blocked by anti-amplification
+          MinPkt,     \* below this allowance a server counts as blocked by anti-amplification
+          FullScan    \* TRUE: the contract looks at every packet ever sent; FALSE (long traces): it
+                      \* starts at the head of the list and ListStep keeps the head honest
 
 KPkt == 3             \* kPacketThreshold
 None == 0 - 1
 SP == 0 .. 2          \* 0 Initial, 1 Handshake, 2 Application Data
 AllFixes == {"stale", "dkreset", "dgcnt"}
 
+\* TLC builds function constructors lazily and re-evaluates their body on every application;
+\* E forces the value once (it is the identity)
+E(v) == TLCEval(v)
+
 Max(a, b) == IF a >= b THEN a ELSE b
 Min(a, b) == IF a <= b THEN a ELSE b
 Abs(a) == IF a >= 0 THEN a ELSE 0 - a
+\* TLC integers are 32 bit: sums and products of times saturate at Big (the driver ends a trace before
+\* the real code's values get near it; the model's own value may be larger when the code is wrong,
+\* and must then differ from the log instead of overflowing)
+Big == 2147000000
+SatAdd(a, b) == IF a >= Big - b THEN Big ELSE a + b
+SatMul(a, k) == IF a > Big \div k THEN Big ELSE a * k
 SetMin(S) == CHOOSE x \in S : \A y \in S : x <= y
 SetMax(S) == CHOOSE x \in S : \A y \in S : x >= y
 
@@ -80,18 +93,20 @@ SetMax(S) == CHOOSE x \in S : \A y \in S : x >= y
 (* lim     anti-amplification allowance, None = unlimited                          *)
 (* ack     ACK frame being processed; pc, lastLoss: persistent congestion hooks    *)
 (* op, osp, cb, fired, stable: ghosts describing the step that led here            *)
-S0(side) ==
+S0x(side, isrtt, ivar) ==
   [side |-> side, conf |-> FALSE, mad |-> DefMAD, now |-> 0,
-   pk |-> [sp \in SP |-> <<>>], start |-> [sp \in SP |-> 1], lastAE |-> [sp \in SP |-> None],
-   largest |-> [sp \in SP |-> None], gone |-> {},
-   rtt |-> [min |-> None, latest |-> 0, srtt |-> InitSRTT, var |-> InitVar, first |-> None],
+   pk |-> E([sp \in SP |-> <<>>]), start |-> E([sp \in SP |-> 1]), lastAE |-> E([sp \in SP |-> None]),
+   largest |-> E([sp \in SP |-> None]), gone |-> {},
+   rtt |-> [min |-> None, latest |-> 0, srtt |-> isrtt, var |-> ivar, first |-> None],
    timer |-> None, armed |-> FALSE, owed |-> FALSE, cnt |-> 0,
    lim |-> IF side = "client" THEN None ELSE 0,
    ack |-> [on |-> FALSE, rtt |-> None, ae |-> FALSE],
-   pc |-> [sp \in SP |-> [s |-> 0, e |-> 0, nx |-> None]], lastLoss |-> FALSE,
+   pc |-> E([sp \in SP |-> [s |-> 0, e |-> 0, nx |-> None]]), lastLoss |-> FALSE,
    op |-> "init", osp |-> None, cb |-> {}, fired |-> FALSE, stable |-> FALSE]
 
-Mark(s, op, sp) == [s EXCEPT !.op = op, !.osp = sp, !.cb = {}, !.fired = FALSE]
+S0(side) == S0x(side, InitSRTT, InitVar)
+
+Tag(s, op, sp) == [s EXCEPT !.op = op, !.osp = sp, !.cb = {}, !.fired = FALSE]
 
 Listed(s, sp) == s.start[sp] .. Len(s.pk[sp])
 SentIdx(s, sp) == {i \in Listed(s, sp) : s.pk[sp][i].st = "sent"}
@@ -100,7 +115,7 @@ SentIdx(s, sp) == {i \in Listed(s, sp) : s.pk[sp][i].st = "sent"}
 CleanStart(q, from) == SetMin({i \in from .. (Len(q) + 1) : i = Len(q) + 1 \/ q[i].st = "sent"})
 
 (* ------------------------------------------------------------ RTT (rtt.go) *)
-LossDelay(rtt) == LET m == Max(rtt.srtt, rtt.latest) IN Max(m + (m \div 8), Gran)
+LossDelay(rtt) == LET m == Max(rtt.srtt, rtt.latest) IN Max(SatAdd(m, m \div 8), Gran)
 
 UpdateRTT(rtt, t, conf, sample, delay, mad) ==
   IF rtt.min < 0
@@ -112,8 +127,8 @@ UpdateRTT(rtt, t, conf, sample, delay, mad) ==
                       !.var = rtt.var + ((Abs(rtt.srtt - adj) - rtt.var) \div 4),
                       !.srtt = rtt.srtt + ((adj - rtt.srtt) \div 8)]
 
-PtoBase(s) == s.rtt.srtt + Max(4 * s.rtt.var, Gran) + (IF s.conf THEN s.mad ELSE 0)
-Pto(s) == PtoBase(s) * (2 ^ s.cnt)
+PtoBase(s) == SatAdd(SatAdd(s.rtt.srtt, Max(SatMul(s.rtt.var, 4), Gran)), IF s.conf THEN s.mad ELSE 0)
+Pto(s) == IF s.cnt >= 30 THEN Big ELSE SatMul(PtoBase(s), 2 ^ s.cnt)
 
 AtLimit(s) == s.lim # None /\ s.lim < MinPkt
 
@@ -127,21 +142,21 @@ Schedule(s, t, fx) ==
       adl    == s.side = "client" /\ s.largest[1] < 0 /\ ~s.conf
       keep   == s.timer # None /\ (("stale" \in fx) => s.armed)
   IN IF heads # {}
-     THEN [s EXCEPT !.timer = SetMin({s.pk[sp][s.start[sp]].t : sp \in heads}) + LossDelay(s.rtt),
+     THEN [s EXCEPT !.timer = SatAdd(SetMin({s.pk[sp][s.start[sp]].t : sp \in heads}), LossDelay(s.rtt)),
                     !.armed = FALSE]
      ELSE IF s.owed \/ AtLimit(s) THEN NoTimer(s)
      ELSE IF aeSp # {}
-     THEN [s EXCEPT !.timer = SetMin({s.pk[sp][s.lastAE[sp] + 1].t : sp \in aeSp}) + Pto(s),
+     THEN [s EXCEPT !.timer = SatAdd(SetMin({s.pk[sp][s.lastAE[sp] + 1].t : sp \in aeSp}), Pto(s)),
                     !.armed = TRUE]
      ELSE IF adl
      THEN IF keep THEN [s EXCEPT !.armed = TRUE]
-          ELSE [s EXCEPT !.timer = t + Pto(s), !.armed = TRUE]
+          ELSE [s EXCEPT !.timer = SatAdd(t, Pto(s)), !.armed = TRUE]
      ELSE NoTimer(s)
 
 (* ----------------------------------------------------- detectLoss (loss.go) *)
 Cond(s, sp, i, t) ==
   \/ s.largest[sp] - (i - 1) >= KPkt
-  \/ (i - 1) <= s.largest[sp] /\ s.pk[sp][i].t + LossDelay(s.rtt) <= t
+  \/ (i - 1) <= s.largest[sp] /\ SatAdd(s.pk[sp][i].t, LossDelay(s.rtt)) <= t
 
 \* the list is walked from the head and the walk stops at the first packet that is not lost
 LostNow(s, sp, t) ==
@@ -160,12 +175,13 @@ PcRun(pc, rtt, q, lost, i) ==
   ELSE PcRun(IF i \in lost /\ q[i].inf THEN PcStep(pc, rtt, i - 1, q[i]) ELSE pc, rtt, q, lost, i + 1)
 
 Detect(s, t) ==
-  LET lost == [sp \in SP |-> LostNow(s, sp, t)]
-      npk  == [sp \in SP |-> [i \in DOMAIN s.pk[sp] |->
-                 IF i \in lost[sp] THEN [s.pk[sp][i] EXCEPT !.st = "lost"] ELSE s.pk[sp][i]]]
+  LET lost == E([sp \in SP |-> LostNow(s, sp, t)])
+      npk  == E([sp \in SP |-> IF lost[sp] = {} THEN s.pk[sp] ELSE E([i \in DOMAIN s.pk[sp] |->
+                 IF i \in lost[sp] THEN [s.pk[sp][i] EXCEPT !.st = "lost"] ELSE s.pk[sp][i]])])
   IN [s EXCEPT !.pk = npk,
-               !.start = [sp \in SP |-> CleanStart(npk[sp], s.start[sp])],
-               !.pc = [sp \in SP |-> PcRun(s.pc[sp], s.rtt, s.pk[sp], lost[sp], 1)],
+               !.start = E([sp \in SP |-> CleanStart(npk[sp], s.start[sp])]),
+               !.pc = E([sp \in SP |-> IF lost[sp] = {} THEN s.pc[sp]
+                                        ELSE PcRun(s.pc[sp], s.rtt, s.pk[sp], lost[sp], s.start[sp])]),
                !.lastLoss = s.lastLoss \/ \E sp \in SP : \E i \in lost[sp] : s.pk[sp][i].inf,
                !.cb = s.cb \cup UNION {{<<sp, i - 1, "lost">> : i \in lost[sp]} : sp \in SP}]
 
@@ -174,7 +190,7 @@ Detect(s, t) ==
 CanSend(s, t, sp) == t >= s.now /\ sp \in SP /\ sp \notin s.gone /\ ~s.ack.on
 Send(s, t, sp, ae, inf, sz, fx) ==
   LET pn == Len(s.pk[sp])
-      s1 == [Mark(s, "send", sp) EXCEPT
+      s1 == [Tag(s, "send", sp) EXCEPT
                !.now = t,
                !.pk[sp] = Append(@, [t |-> t, ae |-> ae, inf |-> inf, sz |-> sz, st |-> "sent"]),
                !.lim = IF @ = None THEN None ELSE Max(0, @ - sz)]
@@ -186,11 +202,11 @@ Send(s, t, sp, ae, inf, sz, fx) ==
 
 \* skipNumber
 Skip(s, t, sp) ==
-  [Mark(s, "skip", sp) EXCEPT
+  [Tag(s, "skip", sp) EXCEPT
      !.now = t, !.pk[sp] = Append(@, [t |-> t, ae |-> FALSE, inf |-> FALSE, sz |-> 0, st |-> "skipped"])]
 
 \* receiveAckStart
-AckStart(s) == [Mark(s, "ackstart", None) EXCEPT !.ack = [on |-> TRUE, rtt |-> None, ae |-> FALSE]]
+AckStart(s) == [Tag(s, "ackstart", None) EXCEPT !.ack = [on |-> TRUE, rtt |-> None, ae |-> FALSE]]
 
 \* receiveAckRange: [lo, hi) in packet numbers, idx = position of the range in the frame
 CanAckRange(s, t, sp, lo, hi) ==
@@ -199,23 +215,24 @@ CanAckRange(s, t, sp, lo, hi) ==
   /\ \A i \in (lo + 1) .. hi : s.pk[sp][i].st # "skipped"
 AckRange(s, t, sp, idx, lo, hi) ==
   LET q     == s.pk[sp]
-      newly == {i \in (lo + 1) .. hi : q[i].st = "sent"}
+      newly == {i \in Max(lo + 1, s.start[sp]) .. hi : q[i].st = "sent"}   \* clipped to the list
       rs    == IF idx = 0 /\ q[hi].st = "sent" THEN Max(0, t - q[hi].t) ELSE s.ack.rtt
-  IN [Mark(s, "ackrange", sp) EXCEPT
+  IN [Tag(s, "ackrange", sp) EXCEPT
         !.now = t,
-        !.pk[sp] = [i \in DOMAIN q |-> IF i \in newly THEN [q[i] EXCEPT !.st = "acked"] ELSE q[i]],
+        !.pk[sp] = IF newly = {} THEN q
+                   ELSE E([i \in DOMAIN q |-> IF i \in newly THEN [q[i] EXCEPT !.st = "acked"] ELSE q[i]]),
         !.largest[sp] = IF newly = {} THEN @ ELSE Max(@, SetMax(newly) - 1),
         !.ack = [on |-> TRUE, rtt |-> rs, ae |-> s.ack.ae \/ \E i \in newly : q[i].ae],
         !.cb = {<<sp, i - 1, "acked">> : i \in newly}]
 
 \* persistent congestion: (end - start) >= 3 * (smoothed + max(4 var, gran) + max_ack_delay)
 PcHolds(s, sp) ==
-  ((s.pc[sp].e - s.pc[sp].s) \div 3) >= s.rtt.srtt + Max(4 * s.rtt.var, Gran) + s.mad
+  ((s.pc[sp].e - s.pc[sp].s) \div 3) >= SatAdd(SatAdd(s.rtt.srtt, Max(SatMul(s.rtt.var, 4), Gran)), s.mad)
 
 \* receiveAckEnd
 CanAckEnd(s, t, sp) == s.ack.on /\ t >= s.now /\ sp \in SP /\ sp \notin s.gone
 AckEnd(s, t, sp, delay, fx) ==
-  LET s0 == Mark(s, "ackend", sp)
+  LET s0 == Tag(s, "ackend", sp)
       s1 == [s0 EXCEPT !.now = t, !.start[sp] = CleanStart(s.pk[sp], @),
                        !.rtt = IF s.ack.rtt >= 0 /\ s.ack.ae
                                THEN UpdateRTT(@, t, s.conf, s.ack.rtt, delay, s.mad) ELSE @,
@@ -229,14 +246,14 @@ AckEnd(s, t, sp, delay, fx) ==
 \* advance
 Advance(s, t, fx) ==
   LET fire == s.armed /\ s.timer # None /\ s.timer <= t
-      s0   == [Mark(s, "advance", None) EXCEPT !.now = t]
+      s0   == [Tag(s, "advance", None) EXCEPT !.now = t]
       s1   == IF fire THEN [s0 EXCEPT !.owed = TRUE, !.timer = None, !.cnt = @ + 1, !.fired = TRUE]
               ELSE s0
   IN [Schedule(Detect(s1, t), t, fx) EXCEPT !.stable = TRUE]
 
 \* datagramReceived
 Datagram(s, t, sz, fx) ==
-  LET s0 == [Mark(s, "dgram", None) EXCEPT !.now = t]
+  LET s0 == [Tag(s, "dgram", None) EXCEPT !.now = t]
   IN IF s.lim = None THEN s0
      ELSE LET s1 == Schedule([s0 EXCEPT !.lim = @ + 3 * sz], t, fx)
           IN IF s1.armed /\ s1.timer # None /\ s1.timer <= t
@@ -248,9 +265,9 @@ Datagram(s, t, sz, fx) ==
 CanDiscardKeys(s, t, sp) == t >= s.now /\ sp \in SP /\ sp \notin s.gone /\ ~s.ack.on
 DiscardKeys(s, t, sp, fx) ==
   LET q  == s.pk[sp]
-      s1 == [Mark(s, "dkeys", sp) EXCEPT
+      s1 == [Tag(s, "dkeys", sp) EXCEPT
                !.now = t,
-               !.pk[sp] = [i \in DOMAIN q |-> IF q[i].st = "sent" THEN [q[i] EXCEPT !.st = "dropped"] ELSE q[i]],
+               !.pk[sp] = E([i \in DOMAIN q |-> IF q[i].st = "sent" THEN [q[i] EXCEPT !.st = "dropped"] ELSE q[i]]),
                !.start[sp] = Len(q) + 1, !.largest[sp] = None, !.lastAE[sp] = None,
                !.gone = @ \cup {sp},
                !.cnt = IF "dkreset" \in fx THEN 0 ELSE @]
@@ -260,21 +277,21 @@ DiscardKeys(s, t, sp, fx) ==
 DiscardPackets(s, sp) ==
   LET q    == s.pk[sp]
       lost == SentIdx(s, sp)
-  IN [Mark(s, "dpkts", sp) EXCEPT
-        !.pk[sp] = [i \in DOMAIN q |-> IF i \in lost THEN [q[i] EXCEPT !.st = "lost"] ELSE q[i]],
+  IN [Tag(s, "dpkts", sp) EXCEPT
+        !.pk[sp] = E([i \in DOMAIN q |-> IF i \in lost THEN [q[i] EXCEPT !.st = "lost"] ELSE q[i]]),
         !.start[sp] = Len(q) + 1,
         !.cb = {<<sp, i - 1, "lost">> : i \in lost},
         !.stable = FALSE]
 
 \* confirmHandshake, setMaxAckDelay, validateClientAddress: no timer is touched
-Confirm(s)   == [Mark(s, "confirm", None) EXCEPT !.conf = TRUE, !.stable = FALSE]
-SetMAD(s, d) == [Mark(s, "mad", None) EXCEPT !.mad = d, !.stable = IF s.conf THEN FALSE ELSE @]
-Validate(s)  == [Mark(s, "validate", None) EXCEPT !.lim = None, !.stable = IF AtLimit(s) THEN FALSE ELSE @]
+Confirm(s)   == [Tag(s, "confirm", None) EXCEPT !.conf = TRUE, !.stable = FALSE]
+SetMAD(s, d) == [Tag(s, "mad", None) EXCEPT !.mad = d, !.stable = IF s.conf THEN FALSE ELSE @]
+Validate(s)  == [Tag(s, "validate", None) EXCEPT !.lim = None, !.stable = IF AtLimit(s) THEN FALSE ELSE @]
 
 (* ----------------------------------------------------------- observations *)
 Kind(s) == IF s.timer = None THEN "none" ELSE IF s.armed THEN "pto" ELSE "loss"
 AllIdx(s, sp) == 1 .. Len(s.pk[sp])
-Outstanding(s, sp) == {i \in AllIdx(s, sp) : s.pk[sp][i].st = "sent"}
+Outstanding(s, sp) == {i \in (IF FullScan THEN 1 ELSE s.start[sp]) .. Len(s.pk[sp]) : s.pk[sp][i].st = "sent"}
 
 RECURSIVE SumSz(_, _)
 SumSz(q, I) == IF I = {} THEN 0 ELSE LET i == CHOOSE x \in I : TRUE IN q[i].sz + SumSz(q, I \ {i})
@@ -291,7 +308,7 @@ Cands(s, sp) == {i \in Outstanding(s, sp) : (i - 1) < s.largest[sp]}
 AllCands(s) == UNION {{<<sp, i>> : i \in Cands(s, sp)} : sp \in SP}
 
 \* the list never loses track of an unresolved packet
-ListComplete(s) == \A sp \in SP : \A i \in AllIdx(s, sp) : i < s.start[sp] => s.pk[sp][i].st # "sent"
+ListComplete(s) == FullScan => \A sp \in SP : \A i \in AllIdx(s, sp) : i < s.start[sp] => s.pk[sp][i].st # "sent"
 
 \* X15: no loss is missed - at every quiescent point no overtaken packet is 3 or more behind
 \* the largest acknowledged, and right after detection ran none has exceeded the time threshold
@@ -299,14 +316,14 @@ NoMissedLoss(s) ==
   Quiescent(s) =>
     \A sp \in SP : \A i \in Cands(s, sp) :
        /\ s.largest[sp] - (i - 1) < KPkt
-       /\ s.op \in {"ackend", "advance"} => s.pk[sp][i].t + LossDelay(s.rtt) > s.now
+       /\ s.op \in {"ackend", "advance"} => SatAdd(s.pk[sp][i].t, LossDelay(s.rtt)) > s.now
 
 \* X15: the loss timer is armed iff some packet is overtaken, and is the earliest loss time
 TimerIsEarliest(s) ==
   (Quiescent(s) /\ s.stable) =>
     /\ (AllCands(s) # {}) = (Kind(s) = "loss")
     /\ Kind(s) = "loss" =>
-         s.timer = SetMin({s.pk[c[1]][c[2]].t : c \in AllCands(s)}) + LossDelay(s.rtt)
+         s.timer = SatAdd(SetMin({s.pk[c[1]][c[2]].t : c \in AllCands(s)}), LossDelay(s.rtt))
 
 \* X16: spaces the PTO looks at (D3), ack-eliciting packets in flight, anti-deadlock (6.2.2.1)
 PtoSpaces(s) == IF s.conf THEN {2} ELSE {0, 1}
@@ -314,7 +331,8 @@ AEOut(s, sp) == {i \in Outstanding(s, sp) : s.pk[sp][i].ae}
 AESpaces(s) == {sp \in PtoSpaces(s) : AEOut(s, sp) # {}}
 ClientAntiDeadlock(s) == s.side = "client" /\ ~s.conf /\ s.largest[1] < 0
 \* A.8: time_of_last_ack_eliciting_packet[space] = the latest ack-eliciting packet SENT
-LastAESent(s, sp) == s.pk[sp][SetMax({i \in AllIdx(s, sp) : s.pk[sp][i].ae})].t
+LastAESent(s, sp) == IF FullScan THEN s.pk[sp][SetMax({i \in AllIdx(s, sp) : s.pk[sp][i].ae})].t
+                     ELSE s.pk[sp][SetMax(AEOut(s, sp))].t
 
 PTOArmedIff(s) ==
   (Quiescent(s) /\ s.stable) =>
@@ -324,7 +342,7 @@ PTOArmedIff(s) ==
 
 PTOValue(s) ==
   (Quiescent(s) /\ s.stable /\ Kind(s) = "pto" /\ AESpaces(s) # {}) =>
-    s.timer = SetMin({LastAESent(s, sp) : sp \in AESpaces(s)}) + Pto(s)
+    s.timer = SatAdd(SetMin({LastAESent(s, sp) : sp \in AESpaces(s)}), Pto(s))
 
 \* the Application Data space never arms the PTO before the handshake is confirmed, and
 \* max_ack_delay is part of the period only then
@@ -337,13 +355,20 @@ ContractInv(s) ==
   /\ PTOArmedIff(s) /\ PTOValue(s) /\ AppOnlyConfirmed(s)
 
 (* step properties: a is the state before, b the state after an entry point *)
-Changed(a, b, sp) == {i \in AllIdx(a, sp) : a.pk[sp][i].st # b.pk[sp][i].st}
+Changed(a, b, sp) ==
+  IF SubSeq(b.pk[sp], 1, Len(a.pk[sp])) = a.pk[sp] THEN {}
+  ELSE {i \in (IF FullScan THEN 1 ELSE a.start[sp]) .. Len(a.pk[sp]) : a.pk[sp][i].st # b.pk[sp][i].st}
+
+\* the head of the list only moves over resolved packets (the step form of ListComplete)
+ListStep(a, b) ==
+  \A sp \in SP : \A i \in a.start[sp] .. (b.start[sp] - 1) : i <= Len(b.pk[sp]) => b.pk[sp][i].st # "sent"
 
 \* X15: one fate per packet, reported exactly once
 OneFate(a, b) ==
-  /\ \A sp \in SP : \A i \in Changed(a, b, sp) :
+  LET ch == E([sp \in SP |-> Changed(a, b, sp)]) IN
+  /\ \A sp \in SP : \A i \in ch[sp] :
         a.pk[sp][i].st = "sent" /\ b.pk[sp][i].st \in {"acked", "lost", "dropped"}
-  /\ b.cb = UNION {{<<sp, i - 1, b.pk[sp][i].st>> : i \in {j \in Changed(a, b, sp) : b.pk[sp][j].st # "dropped"}} : sp \in SP}
+  /\ b.cb = UNION {{<<sp, i - 1, b.pk[sp][i].st>> : i \in {j \in ch[sp] : b.pk[sp][j].st # "dropped"}} : sp \in SP}
 
 \* X15: lost only if overtaken and (3 behind or older than the loss delay), D1: in flight or not
 LostOnlyIfThreshold(a, b) ==
@@ -352,7 +377,7 @@ LostOnlyIfThreshold(a, b) ==
        b.pk[sp][i].st = "lost" =>
          /\ (i - 1) < b.largest[sp]
          /\ \/ b.largest[sp] - (i - 1) >= KPkt
-            \/ a.pk[sp][i].t + LossDelay(b.rtt) <= b.now
+            \/ SatAdd(a.pk[sp][i].t, LossDelay(b.rtt)) <= b.now
 
 \* X15: an RTT sample only when the largest acknowledged is newly acknowledged and an
 \* ack-eliciting packet is newly acknowledged (5.1)
@@ -371,5 +396,5 @@ BackoffRule(a, b) ==
   /\ b.op \notin {"ackend", "dkeys"} => (b.fired \/ b.cnt = a.cnt)
 
 StepContract(a, b) ==
-  OneFate(a, b) /\ LostOnlyIfThreshold(a, b) /\ SampleRule(a, b) /\ BackoffRule(a, b)
+  ListStep(a, b) /\ OneFate(a, b) /\ LostOnlyIfThreshold(a, b) /\ SampleRule(a, b) /\ BackoffRule(a, b)
 =============================================================================
